@@ -59,7 +59,18 @@ def check_folds(ctx, cfg, F, H, type_filter, done, product_unit=None):
         calls = [(i, bb) for i, bb in enumerate(body['blocks']) if bb is not None and bb['t'][0] == 'call']
         rets = [bb for bb in body['blocks'] if bb is not None and bb['t'][0] == 'ret']
         other = [bb for bb in body['blocks'] if bb is not None and bb['t'][0] not in ('call', 'ret', 'goto', 'drop', 'resume', 'unreachable')]
-        if len(calls) != 1 or other:
+        deleg = False
+        if len(calls) == 2 and not other and re.search(r'(Sum|Product)<&', name):
+            # impl Sum<&Self>: `iter.copied().sum()` / `iter.cloned().product()` hands the same elements, in order, to the by-value impl (checked on its own)
+            c0, c1 = calls[0][1]['t'], calls[1][1]['t']
+            d0, d1 = c0[1].get('d', ''), c1[1].get('d', '')
+            if d0.rsplit('::', 1)[-1] in ('copied', 'cloned') and 'Iterator' in d0 and d1.rsplit('::', 1)[-1] == kind.lower() and 'Iterator' in d1 \
+                    and c1[1].get('k', '').endswith('::<%s>' % st) and c1[3][0] == 0 and not c1[3][1] \
+                    and c1[2] and c1[2][0][0] in 'cm' and c1[2][0][1][0] == c0[3][0]:
+                deleg = True
+        if deleg:
+            pass
+        elif len(calls) != 1 or other:
             bad = '%s is not a single Iterator::fold call (%d calls, %d other terminators)' % (kind.lower(), len(calls), len(other))
         else:
             t = calls[0][1]['t']
